@@ -224,6 +224,7 @@ def run_impl(case):
           precreate(it['body'])
     precreate(case['threads'][tid])
     obs = []
+    notes, held = [], []
     fobs = []            # what the handle fetched at the previous observation point receives here
     handle = [None]
     outcome = 'normal'
@@ -253,7 +254,12 @@ def run_impl(case):
         elif it['k'] == 'raise':
           raise (Interrupt() if it.get('base') else Boom())
         else:
-          with (early.pop(id(it)) if id(it) in early else gin.config_scope(scope_arg(it['arg']))):
+          with (early.pop(id(it)) if id(it) in early else gin.config_scope(scope_arg(it['arg']))) as yielded:
+            # what the block hands out is the scope that is active inside it; lists handed out earlier stay what they were
+            now = gin.current_scope()
+            if list(yielded) != list(now):
+              notes.append(f'`with config_scope(...) as s` handed out {list(yielded)} while the active scope is {list(now)}')
+            held.append((now, list(now)))
             run(it['body'])
             st.checkpoint(tid)
     try:
@@ -268,7 +274,12 @@ def run_impl(case):
         depth = len(gin.config._SCOPE_MANAGER.active_scopes)  # pylint: disable=protected-access
       except Exception:  # pylint: disable=broad-except
         depth = None
+      for lst, snap in held:
+        if list(lst) != snap:
+          notes.append(f'a list obtained from current_scope() while the scope was {snap} later read {list(lst)}')
+          break
       results[tid] = {'obs': obs, 'fobs': fobs, 'top': list(gin.current_scope()), 'depth': depth, 'outcome': outcome,
+                      'notes': notes[:3],
                       'scope_str': gin.current_scope_str(), 'sobs': sobs, 'pobs': pobs}
     except BaseException as e:  # pylint: disable=broad-except
       results[tid] = {'crash': core.err_class(e) + ': ' + str(e)}
@@ -370,6 +381,8 @@ def oracle(case, impl):
     got = impl['threads'][tid]
     if 'crash' in got:
       return f'thread {tid} crashed: {got["crash"]}'
+    if got.get('notes'):
+      return f'thread {tid}: {got["notes"][0]}'
     obs = []
     ok = naive(prog, [], binds, obs)
     if got['obs'] != obs:
